@@ -14,34 +14,44 @@
 #define NL 10
 typedef int cmp_fn(const void*, const void*);
 
+/* Token texts are symbolic (up to TOKLEN bytes each): detection may depend on them
+ * only through the word lookup, which the oracle answers per (language, position) */
+#define TOKLEN 36
 struct in_p6 {
+    char tok[16][TOKLEN + 1];
     struct dep_in dep; int S[NL][16]; unsigned e; unsigned prior[16]; bool lang_out_null;
     bool history; int S0[NL][16];      /* an arbitrary earlier detection call on another phrase */
 };
 static struct in_p6 G;
-static const char TOK[16] = { 0 };
-static const char TOK0[16] = { 0 };
+static char TOK[16][TOKLEN + 1];
+static char TOK0[16][TOKLEN + 1];
 static int S_badlang, S_calls;
 
-static bool in_tokens(const char* p, const char* base) {
+static bool in_tokens(const char* p, const char (*base)[TOKLEN + 1]) {
 #ifndef REPLAY
-    return __CPROVER_same_object(p, base) && __CPROVER_POINTER_OFFSET(p) < 16;
+    return __CPROVER_same_object(p, base) && __CPROVER_POINTER_OFFSET(p) < 16 * (TOKLEN + 1)
+        && __CPROVER_POINTER_OFFSET(p) % (TOKLEN + 1) == 0;
 #else
-    return (uintptr_t)p >= (uintptr_t)base && (uintptr_t)p < (uintptr_t)base + 16;
+    return (uintptr_t)p >= (uintptr_t)base && (uintptr_t)p < (uintptr_t)base + 16 * (TOKLEN + 1)
+        && ((uintptr_t)p - (uintptr_t)base) % (TOKLEN + 1) == 0;
 #endif
+}
+static long tok_index(const char* p, const char (*base)[TOKLEN + 1]) {
+    return (long)(((uintptr_t)p - (uintptr_t)base) / (TOKLEN + 1));
 }
 
 int __CPROVER_file_local_lang_c_lang_search(const polyseed_lang* lang, const char* word, cmp_fn* cmp) {
     (void)cmp;
     S_calls++;
+    DEP_TICK();
     int li = -1;
     for (int i = 0; i < NL; ++i) if (lang == polyseed_get_lang(i)) li = i;
     if (in_tokens(word, TOK0)) {                     /* token of the earlier phrase */
         if (li < 0) { S_badlang++; return -1; }
-        return G.S0[li][word - TOK0];
+        return G.S0[li][tok_index(word, TOK0)];
     }
     if (li < 0 || !in_tokens(word, TOK)) { S_badlang++; return -1; }
-    long wi = word - TOK;
+    long wi = tok_index(word, TOK);
     return G.S[li][wi];
 }
 
@@ -74,7 +84,7 @@ void p6_auto(void) {
          * library state is only the feature mask and the injected functions) */
         for (int l = 0; l < NL; ++l) for (int w = 0; w < 16; ++w) VASSUME(G.S0[l][w] >= -1 && G.S0[l][w] < 2048);
         polyseed_phrase phrase0;
-        for (int w = 0; w < 16; ++w) phrase0[w] = &TOK0[w];
+        for (int w = 0; w < 16; ++w) { phrase0[w] = TOK0[w]; for (int i = 0; i <= TOKLEN; ++i) TOK0[w][i] = G.tok[15 - w][i]; TOK0[w][TOKLEN] = '\0'; }
         uint_fast16_t idx0[16];
         const polyseed_lang* lang0 = NULL;
         (void)polyseed_phrase_decode(phrase0, idx0, &lang0);
@@ -84,7 +94,7 @@ void p6_auto(void) {
     for (int i = 0; i < NL; ++i) for (int j = 0; j < i; ++j)
         VASSERT(polyseed_get_lang(i) != polyseed_get_lang(j), "P6 registered languages are distinct objects");
     polyseed_phrase phrase;
-    for (int w = 0; w < 16; ++w) phrase[w] = &TOK[w];
+    for (int w = 0; w < 16; ++w) { phrase[w] = TOK[w]; for (int i = 0; i <= TOKLEN; ++i) TOK[w][i] = G.tok[w][i]; TOK[w][TOKLEN] = '\0'; }
     uint_fast16_t idx[16];
     for (int w = 0; w < 16; ++w) idx[w] = G.prior[w];
     const polyseed_lang* sentinel = (const polyseed_lang*)&G;
@@ -132,7 +142,7 @@ void p6_wipe(void) {
     for (int l = 0; l < NL; ++l) for (int w = 0; w < 16; ++w) VASSUME(G.S[l][w] >= -1 && G.S[l][w] < 2048);
     dep_install(&G.dep);
     polyseed_phrase phrase;
-    for (int w = 0; w < 16; ++w) phrase[w] = &TOK[w];
+    for (int w = 0; w < 16; ++w) { phrase[w] = TOK[w]; TOK[w][0] = '\0'; }
     uint_fast16_t idx[16];
     const polyseed_lang* lang = NULL;
     polyseed_status st = polyseed_phrase_decode(phrase, idx, &lang);
